@@ -22,7 +22,7 @@ import (
 
 // C19 — analysis and highlighting never panic; offsets always point into the source text.
 
-var c19Pieces = []string{"a", "ab", "The", "QUICK", "brown-fox", "fox's", "l'avion", "x_y", "123", "4.5", "foo@bar.com", "http://a.b/c?d=e", " ", " ", "  ", "\t", "\n", ".", ",", "!", "-", "'", "\"",
+var c19Pieces = []string{"a", "ab", "The", "of", "in", "and", "fox", "london", "QUICK", "brown-fox", "fox's", "l'avion", "x_y", "123", "4.5", "foo@bar.com", "http://a.b/c?d=e", " ", " ", "  ", "\t", "\n", ".", ",", "!", "-", "'", "\"",
 	"über", "Größe", "naïve", "東京都", "日本語", "مرحبا", "العربية", "हिन्दी", "नमस्ते", "é", "à́", "‌", "می‌خواهم", "ﬁ", "İ", "ß", "Ǆ",
 	"\xff", "\xc3", "\xe2\x82", "\xf0\x9f", "\xed\xa0\x80", "\x00", "<b>", "</b>", "<p class=\"x\">", "&amp;", "&#x41;", "<script>", "😀", "👍🏽", "camelCaseWord", "HTTPServer2", "ＡＢＣ", "½", "Ⅷ"}
 
@@ -302,8 +302,26 @@ func FuzzC19Components(f *testing.F) {
 
 // ---------------------------------------------------------------- highlighting
 
+// custom analyzers for the highlighting check: chains in which a filter that removes tokens
+// (leaving position gaps) feeds a filter that combines or splits tokens
+var c19CustomHighlightAnalyzers = []string{"c19-stop-shingle", "c19-ws-stop-shingle3", "c19-length-edge", "c19-stop-ngram"}
+
 func c19HighlightMapping(analyzer string) mapping.IndexMapping {
 	m := bleve.NewIndexMapping()
+	must := func(err error) {
+		if err != nil {
+			panic("harness: c19 highlight mapping: " + err.Error())
+		}
+	}
+	must(m.AddCustomTokenFilter("c19-shingle2", map[string]interface{}{"type": "shingle", "min": 2.0, "max": 2.0, "output_original": true}))
+	must(m.AddCustomTokenFilter("c19-shingle3", map[string]interface{}{"type": "shingle", "min": 2.0, "max": 3.0, "output_original": false}))
+	must(m.AddCustomTokenFilter("c19-len2", map[string]interface{}{"type": "length", "min": 2.0, "max": 40.0}))
+	must(m.AddCustomTokenFilter("c19-edge", map[string]interface{}{"type": "edge_ngram", "min": 1.0, "max": 3.0}))
+	must(m.AddCustomTokenFilter("c19-ngram", map[string]interface{}{"type": "ngram", "min": 1.0, "max": 2.0}))
+	must(m.AddCustomAnalyzer("c19-stop-shingle", map[string]interface{}{"type": "custom", "tokenizer": "unicode", "token_filters": []interface{}{"to_lower", "stop_en", "c19-shingle2"}}))
+	must(m.AddCustomAnalyzer("c19-ws-stop-shingle3", map[string]interface{}{"type": "custom", "tokenizer": "whitespace", "token_filters": []interface{}{"stop_en", "c19-shingle3"}}))
+	must(m.AddCustomAnalyzer("c19-length-edge", map[string]interface{}{"type": "custom", "tokenizer": "unicode", "token_filters": []interface{}{"c19-len2", "c19-edge"}}))
+	must(m.AddCustomAnalyzer("c19-stop-ngram", map[string]interface{}{"type": "custom", "tokenizer": "unicode", "token_filters": []interface{}{"to_lower", "stop_en", "c19-ngram"}}))
 	dm := bleve.NewDocumentStaticMapping()
 	fm := bleve.NewTextFieldMapping()
 	fm.Analyzer = analyzer
@@ -410,8 +428,11 @@ func checkHTMLFragment(frag string, value string, locs [][2]int) string {
 func TestC19Highlight(t *testing.T) {
 	ev := Ev("C19")
 	analyzers := c19Analyzers()
-	checkPropN(t, "C19", 200, func(t *rapid.T) {
+	checkPropN(t, "C19", 300, func(t *rapid.T) {
 		an := rapid.SampledFrom(analyzers).Draw(t, "analyzer")
+		if rapid.IntRange(0, 2).Draw(t, "customChain") == 0 {
+			an = rapid.SampledFrom(c19CustomHighlightAnalyzers).Draw(t, "customAnalyzer")
+		}
 		eng := rapid.SampledFrom([]string{EngScorchMem, EngUDGtreap}).Draw(t, "engine")
 		m := c19HighlightMapping(an)
 		idx, err := Config{Engine: eng}.Create("", m)
@@ -419,8 +440,10 @@ func TestC19Highlight(t *testing.T) {
 			t.Fatalf("harness: %v", err)
 		}
 		defer idx.Close()
-		cache := registry.NewCache()
-		analyzer, _ := cache.AnalyzerNamed(an)
+		analyzer := m.AnalyzerNamed(an)
+		if analyzer == nil {
+			t.Fatalf("harness: analyzer %q not found", an)
+		}
 		ndocs := rapid.IntRange(1, 3).Draw(t, "ndocs")
 		values := map[string][]string{}
 		var terms []string
@@ -445,6 +468,12 @@ func TestC19Highlight(t *testing.T) {
 				t.Fatalf("index: %v", err)
 			}
 		}
+		var composite []string
+		for _, tm := range terms {
+			if strings.ContainsAny(tm, " _") {
+				composite = append(composite, tm)
+			}
+		}
 		if len(terms) == 0 {
 			return
 		}
@@ -452,6 +481,11 @@ func TestC19Highlight(t *testing.T) {
 		dq := bleve.NewDisjunctionQuery()
 		for i, n := 0, rapid.IntRange(1, 3).Draw(t, "nterms"); i < n; i++ {
 			tm := rapid.SampledFrom(terms).Draw(t, "term")
+			if len(composite) > 0 && rapid.Bool().Draw(t, "compositeTerm") {
+				// terms a combining filter made out of several tokens (shingles, with or without
+				// fillers for removed tokens)
+				tm = rapid.SampledFrom(composite).Draw(t, "cterm")
+			}
 			tq := bleve.NewTermQuery(tm)
 			tq.SetField("t")
 			dq.AddQuery(tq)
